@@ -127,6 +127,31 @@ def check_handle_events(reg, src, prop, n):
     return fi
 
 
+def check_event_wrappers(reg, src, prop, n=2):
+    """The functions handle_events hands to the root finder and samples around the roots: wrapper k evaluates event k -- its own event, not
+    a neighbour's -- on the dense solution at the queried time, with the solution's gradient exactly when that event asked for it
+    (requires_dstate), for every mix of the two kinds of event."""
+    fi = src.func(F, "handle_events")
+    for rds in itertools.product((False, True), repeat=n):
+        ex, ctx, paths, inp = run_handle_events(src, reg, prop, n, (0,) * n, (False,) * n, requires_dstate=list(rds))
+        tag = "%s/handle_events[n=%d,requires_dstate=%s]/" % (prop, n, "".join("T" if x else "f" for x in rds))
+        normal = [(s, v) for s, v in paths if not isinstance(v, Raised)]
+        if not normal:
+            reg.undecided(tag + "paths", "unsupported", "handle_events", "no normal path")
+            continue
+        s = normal[0][0]
+        info = s.ghost.get("root_info", [])
+        y, dy = ex.uf("sol_y", 1), ex.uf("sol_dy", 1)
+        for k in range(n):
+            r = info[k]["root"] if k < len(info) else None
+            want = None if r is None else (ex.uf("g%d" % k, 3)(r, y(r), dy(r)) if rds[k] else ex.uf("g%d" % k, 2)(r, y(r)))
+            got = info[k]["f_root"] if k < len(info) else None
+            reg.ground(tag + "wrapper-%d-evaluates-its-own-event-on-the-dense-solution" % k, "post", "handle_events",
+                       want is not None and z3.is_expr(got) and z3.simplify(to_real(got)).eq(z3.simplify(to_real(want))), backend="symbolic-exec",
+                       detail="ev_f[%d](t) is %s, expected %s" % (k, got, want))
+    return fi
+
+
 def check_no_miss(reg, src, prop, n=1):
     """C08 chain link (2): a strict sign change of g_k over the step that the root finder certified (not capped), with direction 0 (or a
     compatible direction), is reported -- provided the crossing is isolated inside the sampling window (explicit hypothesis)."""
